@@ -20,6 +20,8 @@ localized segments x paths x sequences of locale switches") as the generator see
   locale_arg  ctx | none | path        the `locale` argument: the context's previous locale, None (maybe_redirect),
                                        read back from the path (correct_locale_prefix_effect, histories only)
   hist_len    0 | 1 | 2 | 3 | 4+       0 = one get_new_path call; otherwise a history of that many switches
+  prefix      canonical | explicit-default     the URL of the default locale spelled with its prefix ("/en/about", default en):
+                                       accepted and read as en by the router, must be rewritten like any other prefix
 """
 import itertools
 
@@ -48,6 +50,7 @@ DIMS = {
     "slashes": ["normal", "trailing", "doubled"],
     "locale_arg": ["ctx", "none", "path"],
     "hist_len": ["0", "1", "2", "3", "4+"],
+    "prefix": ["canonical", "explicit-default"],
 }
 MULTI = {"word", "kinds"}
 
@@ -77,8 +80,12 @@ def infeasible(d1, v1, d2, v2):
         return "the empty path has the single reading []: another route matching first gives the same reading"
     if has(locale_arg="none", word="equals-first") or has(locale_arg="none", dst="default"):
         return "locale=None implies a default-locale URL (see src=default)"
-    if has(src="default", word="equals-first"):
-        return "outside valid: a default-locale URL that starts with a locale name reads as that locale"
+    if has(prefix="explicit-default", src="non-default"):
+        return "explicit-default is the default locale's URL spelled with its prefix"
+    if has(prefix="explicit-default", locale_arg="none"):
+        return "a URL with a prefix is never handled by maybe_redirect (locale=None)"
+    if has(prefix="explicit-default", dst="default"):
+        return "explicit-default implies a default-locale URL (see src=default x dst=default)"
     return None
 
 
@@ -152,6 +159,13 @@ def gen(rng, force=None):
     else:
         locale_arg = pick(rng, force, "locale_arg", [6, 0, 4])
     src = pick(rng, force, "src") if locale_arg != "none" else "default"
+    explicit = pick(rng, force, "prefix", [6, 1]) == "explicit-default"
+    if explicit and "prefix" in force:
+        src = "default"
+        if locale_arg == "none":
+            locale_arg = "ctx"
+    elif explicit and (src != "default" or locale_arg == "none"):
+        explicit = False
     dst = pick(rng, force, "dst", [1, 3, 4])
     if src == "default" and dst == "default":
         dst = "other"
@@ -187,8 +201,11 @@ def gen(rng, force=None):
     overlap = pick(rng, force, "overlap", [1, 5, 3, 2])
     fk = force.get("kinds")
     word = force.get("word") or rng.choices(DIMS["word"], [6, 2, 2, 1, 2])[0]
-    if src == "default" and word == "equals-first":
-        word = "prefixed-first"
+    if src == "default" and word == "equals-first" and not explicit:
+        if "prefix" not in force and locale_arg != "none":
+            explicit = True          # "/en/fr/x": only an explicit prefix lets a default-locale URL continue with a locale name
+        else:
+            word = "prefixed-first"
     root = ("S", [""] * n)
     used = set()
 
@@ -309,6 +326,8 @@ def gen(rng, force=None):
     hsh = rng.choice(HASHES) if frag == "yes" else ""
     sl = pick(rng, force, "slashes", [6, 2, 2])
     path = url(names, dflt, bsegs, a, segs)
+    if explicit:
+        path = "/" + "/".join(list(bsegs) + [names[a]] + list(segs))
     if sl == "trailing":
         path = path + "/" if path != "/" else "//"
     elif sl == "doubled":
@@ -318,7 +337,7 @@ def gen(rng, force=None):
         if path == "//":
             path = "///"
     c = {"names": names, "dflt": dflt, "bsegs": bsegs, "base": base, "atab": table, "inst": inst, "a": a, "b": b,
-         "old": (None if locale_arg == "none" else a), "path": path, "search": search, "hash": hsh, "structured": True,
+         "old": (None if locale_arg == "none" else a), "path": path, "search": search, "hash": hsh, "structured": True, "explicit": explicit,
          "intent": {"slashes": sl, "base": bk, "kinds": kinds, "overlap": overlap}}
     if hist_len != "0":
         ln = {"1": 1, "2": 2, "3": 3, "4+": rng.choice([4, 5, 6])}[hist_len]
@@ -337,9 +356,13 @@ def in_domain(c):
         return False
     segs = render(c["inst"], c["a"])
     cur = c["a"]
+    first = True
+    if c.get("explicit") and c["old"] is None:
+        return False
     for l in (c.get("ls") or [c["b"]]):
-        if not all(seg_ok(s) for s in segs) or not readable(names, dflt, cur, segs):
+        if not all(seg_ok(s) for s in segs) or not ((first and c.get("explicit")) or readable(names, dflt, cur, segs)):
             return False
+        first = False
         if "ls" in c and any(ch in "/".join(segs) for ch in "?#"):
             return False
         segs = expected_segs(n, atab, cur, l, segs)
@@ -388,6 +411,7 @@ def tags(c):
     else:
         t["locale_arg"] = "none" if c["old"] is None else "ctx"
         t["hist_len"] = "0"
+    t["prefix"] = "explicit-default" if c.get("explicit") and a == dflt else "canonical"
     return t
 
 
